@@ -254,7 +254,7 @@ func init() {
 		Assumptions: []string{"per-width answer alphabet (boundary words and a 16/64-point grid), not all 2^64 words",
 			"generator expressions limited to the catalogue in harness/catalog.go (every public constructor at least once, depth-2 nestings)"},
 		Units:  c03Units,
-		Budget: map[string]time.Duration{"quick": 60 * time.Second, "thorough": 25 * time.Minute},
+		Budget: map[string]time.Duration{"quick": 75 * time.Second, "thorough": 25 * time.Minute},
 	})
 }
 
